@@ -1,4 +1,5 @@
 import Astisub.Driver.Basic
+import Astisub.Model.SSAStyleKeys
 import Astisub.Go.Bufio
 import Astisub.Model.Dispatch
 
@@ -88,6 +89,18 @@ def handleIO (op : String) (args impl : List String) : Verdict :=
   | "det.write", _ =>
     -- the harness wrote the list 50 times in all writer orders and snapshotted it: the answer must start with `same`
     compare "same" (impl.headD "") fun _ => false
+  | "det.dupid", toks =>
+    -- style entries `key,id,font` (several keys may carry one id): the `Style:` lines WriteToSSA emits, as `id=font`
+    let entry (t : String) : Option SSAKeys.Entry := match t.splitOn "," with
+      | [k, i, f] => some { key := k.toList, d := { id := i.toList, attrs := some [("f".toList, f.toList)] } }
+      | _ => none
+    match toks.mapM entry with
+    | none => .bad "det.dupid: parse"
+    | some es =>
+      let line (o : Option Def) : String := match o with
+        | some d => String.ofList d.id ++ "=" ++ (match d.attrs with | some [(_, f)] => String.ofList f | _ => "?")
+        | none => "?"
+      compare (" ".intercalate ((SSAKeys.emitted es).map line)) (" ".intercalate impl) fun _ => false
   | "conc.batch", _ => compare "same" (" ".intercalate impl) fun _ => false
   | "io.file", [what] =>   -- empty extension
     handleIOEmptyExt what impl
